@@ -8,3 +8,4 @@ sed -e 's/^package memwire$/package main/' "$here/memwire/memwire.go" > "$WORK/m
 sed -e 's/^package mon$/package main/' "$here/mon/mon.go" > "$WORK/mon_verif_test.go"
 sed -e 's/^package mon$/package main/' "$here/mon/stream.go" > "$WORK/monstream_verif_test.go"
 sed -e 's/^package mon$/package main/' "$here/mon/interleave.go" > "$WORK/moninterleave_verif_test.go"
+sed -e 's/^package mon$/package main/' "$here/mon/parallel.go" > "$WORK/monparallel_verif_test.go"
